@@ -24,6 +24,153 @@ def planPrefix (plan : List (Bytes × Bool)) (m : Nat) : Bytes := ((plan.take m)
 def PlanOK (plan : List (Bytes × Bool)) : Prop :=
   ∃ pre c, plan = pre ++ [(c, true)] ∧ ∀ p ∈ pre, p.2 = false
 
+/-! ## the crypto-free core: chains against a plan -/
+section core
+variable {β : Type} {acc : β → Nat → Option Bytes} {fin : β → Bool}
+
+/-- along a chain whose every accepted block matches the plan entry at its
+    position (or exhibits `Brk`), the blocks spell out a segment of the plan -/
+theorem Chain.plan_segment (plan : List (Bytes × Bool)) (Brk : Prop) (N : Nat)
+    (hm : ∀ b n c, 1 ≤ n → n ≤ N → acc b n = some c → Brk ∨ plan[n - 1]? = some (c, fin b))
+    {n : Nat} {bs : List β} {out : Bytes} (hc : Chain acc fin n bs out)
+    (h1 : 1 ≤ n) (hN : n + bs.length ≤ N + 1) :
+    Brk ∨ ∃ mid : List (Bytes × Bool), mid.length = bs.length ∧ mid <+: plan.drop (n - 1) ∧
+      out = (mid.map (·.1)).flatten ∧
+      (∀ b, bs.getLast? = some b → ∃ p, mid.getLast? = some p ∧ p.2 = fin b) := by
+  induction hc with
+  | nil n => exact Or.inr ⟨[], rfl, List.nil_prefix, rfl, by simp⟩
+  | last n b c ha =>
+    rcases hm b n c h1 (by simp at hN; omega) ha with hb | hp
+    · exact Or.inl hb
+    · refine Or.inr ⟨[(c, fin b)], rfl, ?_, by simp, ?_⟩
+      · obtain ⟨hlt, hget⟩ := List.getElem?_eq_some_iff.1 hp
+        rw [List.drop_eq_getElem_cons hlt, hget]
+        exact ⟨_, rfl⟩
+      · intro b' hb'; simp at hb'; subst hb'; exact ⟨_, rfl, rfl⟩
+  | cons n b c bs r ha hf hne _ ih =>
+    simp only [List.length_cons] at hN
+    rcases hm b n c h1 (by omega) ha with hb | hp
+    · exact Or.inl hb
+    · rcases ih (by omega) (by omega) with hb | ⟨mid, hl, hpre, hout, hlast⟩
+      · exact Or.inl hb
+      · refine Or.inr ⟨(c, fin b) :: mid, by simp [hl], ?_, by simp [hout], ?_⟩
+        · obtain ⟨hlt, hget⟩ := List.getElem?_eq_some_iff.1 hp
+          rw [List.drop_eq_getElem_cons hlt, hget]
+          have : n - 1 + 1 = n + 1 - 1 := by omega
+          rw [this]
+          obtain ⟨t, ht⟩ := hpre
+          exact ⟨t, by simpa using ht⟩
+        · intro b' hb'
+          rw [List.getLast?_cons_of_ne_nil hne] at hb'
+          obtain ⟨p, hp1, hp2⟩ := hlast b' hb'
+          have hmne : mid ≠ [] := by intro h0; rw [h0] at hp1; simp at hp1
+          exact ⟨p, by rw [List.getLast?_cons_of_ne_nil hmne]; exact hp1, hp2⟩
+
+theorem Chain.head_acc {n : Nat} {bs : List β} {out : Bytes} (hc : Chain acc fin n bs out)
+    (hne : bs ≠ []) : ∃ b c, acc b n = some c := by
+  induction hc with
+  | nil n => exact absurd rfl hne
+  | last n b c ha => exact ⟨b, c, ha⟩
+  | cons n b c _ _ ha => exact ⟨b, c, ha⟩
+
+/-- a prefix of a well-formed plan that ends in a final entry is the whole plan -/
+theorem PlanOK.prefix_final {plan mid : List (Bytes × Bool)} (hp : PlanOK plan) (hpre : mid <+: plan)
+    {p : Bytes × Bool} (hl : mid.getLast? = some p) (hf : p.2 = true) : mid.length = plan.length := by
+  obtain ⟨pre, c, rfl, hnf⟩ := hp
+  obtain ⟨t, ht⟩ := hpre
+  rcases List.eq_nil_or_concat t with rfl | ⟨t', x, rfl⟩
+  · simp at ht; rw [ht]
+  · exfalso
+    rw [List.concat_eq_append, ← List.append_assoc] at ht
+    obtain ⟨e1, _⟩ := List.append_inj' ht rfl
+    have hmem : p ∈ pre := by
+      rw [← e1]; exact List.mem_append_left _ (List.mem_of_getLast? hl)
+    rw [hnf p hmem] at hf; cases hf
+
+theorem planPrefix_of_prefix {plan mid : List (Bytes × Bool)} (hpre : mid <+: plan) :
+    planPrefix plan mid.length = (mid.map (·.1)).flatten := by
+  unfold planPrefix
+  rw [← List.prefix_iff_eq_take.1 hpre]
+
+end core
+
+/-- the common end game of the three reductions: per-block matching against
+    the plan of an honest event with the receiver's header hash, events being
+    determined by their header hash, gives the prefix / completeness statement -/
+theorem assemble {β E : Type} {acc : β → Nat → Option Bytes} {fin : β → Bool}
+    (H : List E) (hh : E → Bytes) (planOf : E → List (Bytes × Bool)) (shh : Bytes) (Brk : Prop) (N : Nat)
+    (hplan : ∀ e ∈ H, PlanOK (planOf e))
+    (hone : ∀ e ∈ H, ∀ e' ∈ H, hh e = hh e' → e = e')
+    (hm : ∀ b n c, 1 ≤ n → n ≤ N → acc b n = some c →
+      Brk ∨ ∃ e ∈ H, hh e = shh ∧ (planOf e)[n - 1]? = some (c, fin b))
+    (bytes : Bytes) (err : Option Err)
+    (hpre : ∃ bs, bs.length ≤ N ∧ Chain acc fin 1 bs bytes)
+    (hok : err = none → ∃ bs, bs.length ≤ N ∧ Complete acc fin 1 bs bytes) :
+    bytes = [] ∧ err ≠ none ∨
+    (∃ e ∈ H, hh e = shh ∧ ∃ m, m ≤ (planOf e).length ∧ bytes = planPrefix (planOf e) m ∧
+        (err = none → m = (planOf e).length)) ∨
+    Brk := by
+  -- the core: a non-empty chain pins one event and a prefix of its plan
+  have core : ∀ bs : List β, bs ≠ [] → bs.length ≤ N → Chain acc fin 1 bs bytes →
+      Brk ∨ ∃ e ∈ H, hh e = shh ∧ ∃ mid : List (Bytes × Bool), mid <+: planOf e ∧
+        bytes = (mid.map (·.1)).flatten ∧
+        (∀ b, bs.getLast? = some b → ∃ p, mid.getLast? = some p ∧ p.2 = fin b) := by
+    intro bs hne hlen hc
+    have hfirst : ∃ b c, acc b 1 = some c := Chain.head_acc hc hne
+    obtain ⟨b0, c0, ha0⟩ := hfirst
+    have hN1 : 1 ≤ N := by
+      cases bs with
+      | nil => exact absurd rfl hne
+      | cons _ _ => simp at hlen; omega
+    rcases hm b0 1 c0 (Nat.le_refl 1) hN1 ha0 with hb | ⟨e, he, hhe, _⟩
+    · exact Or.inl hb
+    · have hm' : ∀ b n c, 1 ≤ n → n ≤ N → acc b n = some c →
+          Brk ∨ (planOf e)[n - 1]? = some (c, fin b) := by
+        intro b n c h1 hn ha
+        rcases hm b n c h1 hn ha with hb | ⟨e', he', hhe', hp⟩
+        · exact Or.inl hb
+        · have : e' = e := hone e' he' e he (by rw [hhe', hhe])
+          rw [this] at hp
+          exact Or.inr hp
+      rcases Chain.plan_segment (planOf e) Brk N hm' hc (Nat.le_refl 1) (by omega) with hb | ⟨mid, _, hpre, hout, hlast⟩
+      · exact Or.inl hb
+      · exact Or.inr ⟨e, he, hhe, mid, by simpa using hpre, hout, hlast⟩
+  by_cases herr : err = none
+  · obtain ⟨bs, hlen, hc, b, hb, hfb⟩ := hok herr
+    have hne : bs ≠ [] := by intro h0; rw [h0] at hb; simp at hb
+    rcases core bs hne hlen hc with hbk | ⟨e, he, hhe, mid, hpre, hout, hlast⟩
+    · exact Or.inr (Or.inr hbk)
+    · obtain ⟨p, hp1, hp2⟩ := hlast b hb
+      refine Or.inr (Or.inl ⟨e, he, hhe, mid.length, hpre.length_le, ?_, fun _ => ?_⟩)
+      · rw [planPrefix_of_prefix hpre]; exact hout
+      · exact PlanOK.prefix_final (hplan e he) hpre hp1 (by rw [hp2, hfb])
+  · obtain ⟨bs, hlen, hc⟩ := hpre
+    by_cases hne : bs = []
+    · subst hne
+      exact Or.inl ⟨Chain.out_of_nil hc, herr⟩
+    · rcases core bs hne hlen hc with hbk | ⟨e, he, hhe, mid, hpre, hout, _⟩
+      · exact Or.inr (Or.inr hbk)
+      · refine Or.inr (Or.inl ⟨e, he, hhe, mid.length, hpre.length_le, ?_, fun h => absurd h herr⟩)
+        rw [planPrefix_of_prefix hpre]; exact hout
+
+theorem prefix_map_some_length {β : Type} {bs : List β} {items : List (Option β)}
+    (h : bs.map some <+: items) : bs.length ≤ items.length := by
+  have := h.length_le
+  simpa using this
+
+
+/-! ## nonce lengths -/
+
+theorem chunkSecretBox_length (i : Nat) : (Nonce.chunkSecretBox i).length = 24 := by
+  unfold Nonce.chunkSecretBox
+  rw [List.length_append, be64_length]
+  rfl
+
+theorem chunkSigncryption_length (hh : Bytes) (hl : hh.length = 64) (f : Bool) (i : Nat) :
+    (Nonce.chunkSigncryption hh f i).length = 24 := by
+  unfold Nonce.chunkSigncryption Nonce.hashFlagCounter
+  simp [be64_length, hl]
+
 /-! ## encryption (C02) -/
 namespace AuthEnc
 
@@ -55,6 +202,73 @@ def MacForgery (s : Decrypt.State) (H : List Event) : Prop :=
 
 def Break (s : Decrypt.State) (H : List Event) : Prop := MacForgery P s H ∨ HashCollision P
 
+/-- what one accepted packet proves: it is chunk `n - 1` of an honest message
+    with this header hash, final flag included — or a break -/
+theorem block_match (hP : P.Lawful) (s : Decrypt.State)
+    (hv : s.version.major = 1 ∨ s.version.major = 2) (hhl : s.headerHash.length = 64)
+    (H : List Event)
+    (hplan : ∀ e ∈ H, PlanOK e.plan ∧ e.plan.length < 2 ^ 64 - 1 ∧ e.headerHash.length = 64)
+    (hv1 : s.version.major = 1 → ∀ e ∈ H, ∀ p ∈ e.plan, (p.1 = [] ↔ p.2 = true))
+    (hkey : ∀ e ∈ H, e.headerHash = s.headerHash → e.payloadKey = s.payloadKey)
+    (b : EncBlock) (n : Nat) (c : Bytes)
+    (h : Dec.accept P s b n = some c) :
+    Break P s H ∨ ∃ e ∈ H, e.headerHash = s.headerHash ∧
+      e.plan[n - 1]? = some (c, Decrypt.blockFinal s.version b) := by
+  obtain ⟨ph, hph, hauth, hopen, hbn⟩ := Dec.accept_binds P s b n c h
+  have hnlt : n - 1 < 2 ^ 64 := by
+    unfold blockNumberOK at hbn
+    simp only [decide_eq_true_eq] at hbn
+    omega
+  by_cases hm : HonestlyMACed P s.version H s.macKey ph
+  · obtain ⟨e, he, _, k, c', f', hk, hpheq⟩ := hm
+    obtain ⟨_, hel, ehl⟩ := hplan e he
+    have hklt : k < 2 ^ 64 := by
+      have := (List.getElem?_eq_some_iff.1 hk).1; omega
+    -- once the fields agree, the chunk is the honest one
+    have hchunk : e.headerHash = s.headerHash → k = n - 1 →
+        b.ct = P.sbSeal e.payloadKey (Nonce.chunkSecretBox k) c' → c = c' := by
+      intro e1 e2 e3
+      rw [e3, hkey e he e1, e2, hP.sb_open_seal] at hopen
+      exact (Option.some.inj hopen).symm
+    rcases hv with hv | hv
+    · -- V1
+      unfold payloadHash at hph
+      simp only [hv, if_true, Except.ok.injEq] at hph
+      simp only [honestInput, hv, if_true] at hpheq
+      rw [← hph] at hpheq
+      by_cases heq : s.headerHash ++ Nonce.chunkSecretBox (n - 1) ++ b.ct =
+          e.headerHash ++ Nonce.chunkSecretBox k ++ P.sbSeal e.payloadKey (Nonce.chunkSecretBox k) c'
+      · obtain ⟨e1, e2, e3⟩ := macInput_inj_v1 _ _ _ _ _ _ hhl ehl
+          (chunkSecretBox_length _) (chunkSecretBox_length _) heq
+        have e2' := chunkSecretBox_inj _ _ hnlt hklt e2
+        have hcc := hchunk e1.symm e2'.symm e3
+        refine Or.inr ⟨e, he, e1.symm, ?_⟩
+        have hmem : (c', f') ∈ e.plan := List.mem_of_getElem? hk
+        have hiff := hv1 hv e he (c', f') hmem
+        have hfin : Decrypt.blockFinal s.version b = f' := by
+          simp only [Decrypt.blockFinal, hv, if_true]
+          rw [e3, hP.sb_len]
+          cases f' <;> cases c' <;> simp_all
+        rw [e2', hk, hcc, hfin]
+      · exact Or.inl (Or.inr ⟨_, _, heq, hpheq⟩)
+    · -- V2
+      unfold payloadHash at hph
+      have h21 : ¬ ((2 : Int) = 1) := by decide
+      simp only [hv, h21, if_false, if_true, Except.ok.injEq] at hph
+      simp only [honestInput, hv, h21, if_false] at hpheq
+      rw [← hph] at hpheq
+      by_cases heq : s.headerHash ++ Nonce.chunkSecretBox (n - 1) ++
+            finalByte (Decrypt.blockFinal s.version b) ++ b.ct =
+          e.headerHash ++ Nonce.chunkSecretBox k ++ finalByte f' ++
+            P.sbSeal e.payloadKey (Nonce.chunkSecretBox k) c'
+      · obtain ⟨e1, e2, e3, e4⟩ := macInput_inj_v2 _ _ _ _ _ _ _ _ hhl ehl
+          (chunkSecretBox_length _) (chunkSecretBox_length _) heq
+        have e2' := chunkSecretBox_inj _ _ hnlt hklt e2
+        have hcc := hchunk e1.symm e2'.symm e4
+        exact Or.inr ⟨e, he, e1.symm, by rw [e2', hk, hcc, e3]⟩
+      · exact Or.inl (Or.inr ⟨_, _, heq, hpheq⟩)
+  · exact Or.inl (Or.inl ⟨b, ph, hauth, hm⟩)
+
 /-- **C02, reduction.**  `H` is any history of honest messages.  Hypotheses:
     the receiver state has a supported major and a 64-byte header hash (true of
     every state `processHeader` returns, with `Prims.Lawful`); honest plans are
@@ -75,7 +289,18 @@ theorem authentic_or_break (hP : P.Lawful) (s : Decrypt.State)
     (∃ e ∈ H, e.headerHash = s.headerHash ∧ ∃ m, m ≤ e.plan.length ∧ r.bytes = planPrefix e.plan m ∧
         (r.err = none → m = e.plan.length)) ∨
     Break P s H := by
-  sorry
+  intro r
+  refine assemble (acc := Dec.accept P s) (fin := Decrypt.blockFinal s.version)
+    H (·.headerHash) (·.plan) s.headerHash (Break P s H) items.length
+    (fun e he => (hplan e he).1) hone ?_ r.bytes r.err ?_ ?_
+  · intro b n c _ _ ha
+    exact block_match P hP s hv hhl H hplan hv1 hkey b n c ha
+  · obtain ⟨bs, hp, hc⟩ := Dec.run_prefix P s items tail 1
+    exact ⟨bs, prefix_map_some_length hp, hc⟩
+  · intro herr
+    obtain ⟨bs, hi, _, hc⟩ := (Dec.run_ok_iff P s items tail 1).1 herr
+    exact ⟨bs, by rw [hi]; simp, hc⟩
+
 
 end AuthEnc
 
@@ -104,6 +329,57 @@ def SigForgery (s : Sign.State) (H : List Event) : Prop :=
 
 def Break (s : Sign.State) (H : List Event) : Prop := SigForgery P s H ∨ HashCollision P
 
+/-- what one accepted packet proves: it is chunk `n - 1` of an honest message
+    with this header hash, final flag included — or a break -/
+theorem block_match (s : Sign.State)
+    (hv : s.version.major = 1 ∨ s.version.major = 2) (hhl : s.headerHash.length = 64)
+    (H : List Event)
+    (hplan : ∀ e ∈ H, PlanOK e.plan ∧ e.plan.length < 2 ^ 64 ∧ e.headerHash.length = 64)
+    (hv1 : s.version.major = 1 → ∀ e ∈ H, ∀ p ∈ e.plan, (p.1 = [] ↔ p.2 = true))
+    (b : SigBlock) (n : Nat) (c : Bytes) (hn : n - 1 < 2 ^ 64)
+    (h : Ver.accept P s b n = some c) :
+    Break P s H ∨ ∃ e ∈ H, e.headerHash = s.headerHash ∧
+      e.plan[n - 1]? = some (c, Sign.blockFinal s.version b) := by
+  obtain ⟨hc, inp, hinp, hver⟩ := Ver.accept_binds P s b n c h
+  subst hc
+  by_cases hs : HonestlySigned P s.version H inp
+  · obtain ⟨e, he, k, c', f', hk, hinpeq⟩ := hs
+    obtain ⟨_, hel, ehl⟩ := hplan e he
+    have hklt : k < 2 ^ 64 := by
+      have := (List.getElem?_eq_some_iff.1 hk).1; omega
+    rcases hv with hv | hv
+    · -- V1
+      unfold attachedSignatureInput at hinp
+      simp only [hv, if_true, Except.ok.injEq] at hinp
+      simp only [honestHashed, hv, if_true] at hinpeq
+      rw [← hinp] at hinpeq
+      have hh := List.append_cancel_left hinpeq
+      by_cases heq : s.headerHash ++ be64 (n - 1) ++ b.chunk = e.headerHash ++ be64 k ++ c'
+      · obtain ⟨e1, e2, e3⟩ := attachedInput_inj_v1 _ _ _ _ _ _ hhl ehl hn hklt heq
+        refine Or.inr ⟨e, he, e1.symm, ?_⟩
+        have hmem : (c', f') ∈ e.plan := List.mem_of_getElem? hk
+        have hiff := hv1 hv e he (c', f') hmem
+        have hfin : Sign.blockFinal s.version b = f' := by
+          simp only [Sign.blockFinal, hv, if_true]
+          rw [e3]
+          cases f' <;> cases c' <;> simp_all
+        rw [e2, hk, e3, hfin]
+      · exact Or.inl (Or.inr ⟨_, _, heq, hh⟩)
+    · -- V2
+      unfold attachedSignatureInput at hinp
+      have h21 : ¬ ((2 : Int) = 1) := by decide
+      simp only [hv, h21, if_false, if_true, Except.ok.injEq] at hinp
+      simp only [honestHashed, hv, h21, if_false] at hinpeq
+      rw [← hinp] at hinpeq
+      have hh := List.append_cancel_left hinpeq
+      by_cases heq : s.headerHash ++ be64 (n - 1) ++ finalByte (Sign.blockFinal s.version b) ++ b.chunk
+          = e.headerHash ++ be64 k ++ finalByte f' ++ c'
+      · obtain ⟨e1, e2, e3, e4⟩ := attachedInput_inj_v2 _ _ _ _ _ _ _ _ hhl ehl hn hklt heq
+        exact Or.inr ⟨e, he, e1.symm, by rw [e2, hk, e3, e4]⟩
+      · exact Or.inl (Or.inr ⟨_, _, heq, hh⟩)
+  · exact Or.inl (Or.inl ⟨inp, b.sig, hver, hs⟩)
+
+
 /-- **C06, reduction.** `H`: all attached messages the owner of `s.publicKey`
     ever signed. -/
 theorem authentic_or_break (hP : P.Lawful) (s : Sign.State)
@@ -118,7 +394,19 @@ theorem authentic_or_break (hP : P.Lawful) (s : Sign.State)
     (∃ e ∈ H, e.headerHash = s.headerHash ∧ ∃ m, m ≤ e.plan.length ∧ r.bytes = planPrefix e.plan m ∧
         (r.err = none → m = e.plan.length)) ∨
     Break P s H := by
-  sorry
+  have _ := hP
+  intro r
+  refine assemble (acc := Ver.accept P s) (fin := Sign.blockFinal s.version)
+    H (·.headerHash) (·.plan) s.headerHash (Break P s H) items.length
+    (fun e he => (hplan e he).1) hone ?_ r.bytes r.err ?_ ?_
+  · intro b n c _ hn ha
+    exact block_match P s hv hhl H hplan hv1 b n c (by omega) ha
+  · obtain ⟨bs, hp, hc⟩ := Ver.run_prefix P s items tail 1
+    exact ⟨bs, prefix_map_some_length hp, hc⟩
+  · intro herr
+    obtain ⟨bs, hi, _, hc⟩ := (Ver.run_ok_iff P s items tail 1).1 herr
+    exact ⟨bs, by rw [hi]; simp, hc⟩
+
 
 end AuthSig
 
@@ -141,6 +429,35 @@ def SigForgery (spk : Bytes) (H : List Event) : Prop :=
 
 def Break (spk : Bytes) (H : List Event) : Prop := SigForgery P spk H ∨ HashCollision P
 
+/-- what one accepted packet proves: it is chunk `n - 1` of an honest message
+    with this header hash, final flag included — or a break -/
+theorem block_match (hP : P.Lawful) (s : Signcrypt.State) (spk : Bytes) (hs : s.sender = some spk)
+    (hhl : s.headerHash.length = 64)
+    (H : List Event)
+    (hplan : ∀ e ∈ H, PlanOK e.plan ∧ e.plan.length < 2 ^ 64 ∧ e.headerHash.length = 64)
+    (b : SigncryptBlock) (n : Nat) (c : Bytes)
+    (h : Sc.accept P s b n = some c) :
+    Break P spk H ∨ ∃ e ∈ H, e.headerHash = s.headerHash ∧ e.plan[n - 1]? = some (c, b.final) := by
+  obtain ⟨sig, _, _, hver, hbn⟩ := Sc.accept_binds P s spk hs b n c h
+  have hnlt : n - 1 < 2 ^ 64 := by
+    unfold blockNumberOK at hbn
+    simp only [decide_eq_true_eq] at hbn
+    omega
+  by_cases hsg : HonestlySigned P H (signcryptionSignatureInput P s.headerHash
+      (Nonce.chunkSigncryption s.headerHash b.final (n - 1)) b.final c)
+  · obtain ⟨e, he, k, c', f', hk, hinpeq⟩ := hsg
+    obtain ⟨_, hel, ehl⟩ := hplan e he
+    have hklt : k < 2 ^ 64 := by
+      have := (List.getElem?_eq_some_iff.1 hk).1; omega
+    obtain ⟨e1, e2, e3, e4⟩ := signcryptInput_inj P hP.hash_len _ _ _ _ _ _ _ _ hhl ehl
+      (chunkSigncryption_length _ hhl _ _) (chunkSigncryption_length _ ehl _ _) hinpeq
+    rw [← e1] at e2
+    obtain ⟨_, e5⟩ := chunkSigncryption_inj _ hhl _ _ _ _ hnlt hklt e2
+    by_cases heq : c = c'
+    · exact Or.inr ⟨e, he, e1.symm, by rw [e5, hk, heq, e3]⟩
+    · exact Or.inl (Or.inr ⟨c, c', heq, e4⟩)
+  · exact Or.inl (Or.inl ⟨_, sig, hver, hsg⟩)
+
 /-- **C04, reduction, named sender** — holds even against an adversary who
     knows the payload key (nothing is assumed about `s.payloadKey`). -/
 theorem authentic_or_break (hP : P.Lawful) (s : Signcrypt.State) (spk : Bytes) (hs : s.sender = some spk)
@@ -154,7 +471,18 @@ theorem authentic_or_break (hP : P.Lawful) (s : Signcrypt.State) (spk : Bytes) (
     (∃ e ∈ H, e.headerHash = s.headerHash ∧ ∃ m, m ≤ e.plan.length ∧ r.bytes = planPrefix e.plan m ∧
         (r.err = none → m = e.plan.length)) ∨
     Break P spk H := by
-  sorry
+  intro r
+  refine assemble (acc := Sc.accept P s) (fin := (·.final))
+    H (·.headerHash) (·.plan) s.headerHash (Break P spk H) items.length
+    (fun e he => (hplan e he).1) hone ?_ r.bytes r.err ?_ ?_
+  · intro b n c _ _ ha
+    exact block_match P hP s spk hs hhl H hplan b n c ha
+  · obtain ⟨bs, hp, hc⟩ := Sc.run_prefix P s items tail 1
+    exact ⟨bs, prefix_map_some_length hp, hc⟩
+  · intro herr
+    obtain ⟨bs, hi, _, hc⟩ := (Sc.run_ok_iff P s items tail 1).1 herr
+    exact ⟨bs, by rw [hi]; simp, hc⟩
+
 
 end AuthSc
 
